@@ -172,13 +172,22 @@ def gen_call(rng, tier):
     img = gen_image(rng, nrng, shape, kind)
     scale = 1
     if kind == 'negative':
-        dt = rng.choice(['int64', 'float64', 'dyadic'])
+        dt = rng.choice(['int64', 'float64', 'dyadic', 'int16', 'int32'])
     else:
-        dt = rng.choice(['uint8', 'uint16', 'int64', 'float64', 'dyadic'])
+        dt = rng.choice(['uint8', 'uint16', 'int64', 'float64', 'dyadic', 'int16', 'int16', 'int32', 'int8'])
     if dt == 'uint8':
         img = np.minimum(img, 255)
+    if dt in ('int8', 'int16', 'int32'):
+        # narrow signed pixels stretched to the top of their range (a 16-bit camera frame, or what locate's
+        # convert_to_int makes of a bandpassed frame): pixel * mask offset no longer fits the pixel type
+        top = {'int8': 127, 'int16': 32767, 'int32': 2 ** 31 - 1}[dt]
+        peak_abs = int(np.abs(img).max()) or 1
+        if rng.random() < 0.8:
+            img = img * (top // peak_abs)
+        else:
+            img = np.clip(img, -top, top)
     rawkind = rng.choice(['same', 'other', 'other'])
-    raw = img if rawkind == 'same' else np.asarray(nrng.integers(0, 256, shape), dtype=np.int64)
+    raw = img if rawkind == 'same' else np.asarray(nrng.integers(0, 128 if dt == 'int8' else 256, shape), dtype=np.int64)   # the raw frame is stored in the same dtype
     if dt == 'dyadic':
         scale = rng.choice([2, 8, 64])
     n = rng.randint(1, 5)
